@@ -5,7 +5,8 @@
      make the proof stage fail (the regenerated definition no longer equals the model) IN ITS OWN GROUP ONLY (every
      other group's module still builds: a check of another property is not disturbed) — and behaviour-preserving
      rewrites, for which the outcome is reported (still proved / Untranslatable / proof no longer checks).
-run: cd /root/wt/tr && PYTHONPATH=/repo:harness /venv/bin/python -W ignore harness/tr_selftest.py [--no-mutations]"""
+run: cd /root/wt/tr && PYTHONPATH=/repo:harness /venv/bin/python -W ignore harness/tr_selftest.py [--no-mutations] [--groups=A,B]
+     (`--groups`: only the mutations / rewrites that concern one of these groups; `--no-cpython`: skip the CPython comparison)"""
 import json
 import os
 import re
@@ -99,6 +100,27 @@ MUTATIONS = [
     ("tlexport/main.py", "        if len(packet_payload) < 6:", "        if len(packet_payload) < 5:", "handle_quic_packet: 5-byte long header read"),
     ("tlexport/output_builder.py", "        self.default_port = 8080", "        self.default_port = 8081", "OutputBuilder: fallback port"),
     ("tlexport/quic/quic_output_builder.py", "        if keep_original_ports is False:", "        if keep_original_ports is True:", "QUICOutputbuilder: flag inverted"),
+    # group TlsSess2: the record handlers of session.py, whole
+    ("tlexport/session.py", "        if self.server_cipher_change and isserver and self.can_decrypt:", "        if self.server_cipher_change and isserver:", "handle_handshake_finished: decrypts although the session cannot decrypt"),
+    ("tlexport/session.py", "        if self.exp_meta and _plaintext != b\"\":", "        if _plaintext != b\"\":", "handle_handshake_finished: exports without the meta-data flag"),
+    ("tlexport/session.py", "        if self.server_cipher_change or self.client_cipher_change:", "        if self.server_cipher_change and self.client_cipher_change:", "handle_tls_handshake_record: encrypted handshake only after both ChangeCipherSpecs"),
+    ("tlexport/session.py", "                    logging.warning(f\"Could not handle ServerHello, session cannot be decrypted\")\n                    self.can_decrypt = False", "                    logging.warning(f\"Could not handle ServerHello, session cannot be decrypted\")\n                    pass", "handle_tls_handshake_record: a failed ServerHello leaves can_decrypt set"),
+    ("tlexport/session.py", "        index += session_id_length + 1", "        index += session_id_length", "handle_tls_server_hello: session id length byte not skipped"),
+    ("tlexport/session.py", "            extensions_index += extension_length + 4", "            extensions_index += extension_length + 2", "handle_tls_server_hello: extension header taken as 2 bytes"),
+    ("tlexport/session.py", "        if self.extensions.get(bytes.fromhex(\"002b\")) == bytearray.fromhex(\"0304\"):", "        if self.extensions.get(bytes.fromhex(\"002b\")) == bytearray.fromhex(\"0303\"):", "handle_tls_server_hello: supported_versions 0x0303 taken for TLS 1.3"),
+    ("tlexport/session.py", "        self.compression_method = record.binary[index + 2]", "        self.compression_method = record.binary[index + 3]", "handle_tls_server_hello: compression method read one byte late"),
+    ("tlexport/session.py", "            if len(buffer) < length + 4:", "            if len(buffer) < length:", "handle_decrypted_tls_13_handshake_record: incomplete message consumed"),
+    ("tlexport/session.py", "            if handshake_type == 20:", "            if handshake_type == 24:", "handle_decrypted_tls_13_handshake_record: keys updated on KeyUpdate instead of Finished"),
+    ("tlexport/session.py", "            self.handshake_13_buffer[isserver] = buffer\n            if handshake_type == 20:\n                self.decryptor.update_keys(isserver)\n", "            if handshake_type == 20:\n                self.decryptor.update_keys(isserver)\n            self.handshake_13_buffer[isserver] = buffer\n", "handle_decrypted_tls_13_handshake_record: buffer stored after update_keys (a raise loses the consumed message)"),
+    ("tlexport/session.py", "            plaintext = plaintext.rstrip(b'\\x00')", "            plaintext = plaintext.rstrip(b'\\x01')", "handle_tls_13_application_record: padding not stripped"),
+    ("tlexport/session.py", "            if subrecord_type == b'\\x17':", "            if subrecord_type == b'\\x18':", "handle_tls_13_application_record: application data under the wrong content type"),
+    ("tlexport/session.py", "        self.application_traffic.append((plaintext, record, isserver))", "        self.application_traffic.append((plaintext, record, not isserver))", "handle_tls_application_record: direction inverted"),
+    ("tlexport/session.py", "                if isserver:\n                    self.server_cipher_change = True\n                else:\n                    self.client_cipher_change = True", "                if isserver:\n                    self.client_cipher_change = True\n                else:\n                    self.server_cipher_change = True", "handle_tls_record: ChangeCipherSpec recorded for the other direction"),
+    ("tlexport/session.py", "                if self.can_decrypt and self.decryptor is not None:", "                if self.decryptor is not None:", "handle_tls_record: application data decrypted although can_decrypt is off"),
+    ("tlexport/session.py", "                        case TlsVersion.TLS12 | TlsVersion.TLS11 | TlsVersion.TLS10 | TlsVersion.SSL30:", "                        case TlsVersion.TLS12 | TlsVersion.TLS11 | TlsVersion.TLS10:", "handle_tls_record: SSL 3.0 application data not handled"),
+    ("tlexport/session.py", "                if len(record.binary) > 0:\n                    self.handle_alert(record.binary[0])", "                if len(record.binary) > 1:\n                    self.handle_alert(record.binary[0])", "handle_tls_record: one-byte alerts ignored"),
+    ("tlexport/session.py", "                    self.handle_tls_record(record, True)", "                    self.handle_tls_record(record, False)", "get_tls_records: server records handled as the client's"),
+    ("tlexport/tlsrecord.py", "        self.binary = binary[5:]", "        self.binary = binary[4:]", "TlsRecord: body starts inside the header"),
 ]
 
 # behaviour-preserving rewrites: (file, [(old, new)…], what)
@@ -127,6 +149,9 @@ REWRITES = [
     ("tlexport/session.py", [("        if alert_level == 0x1 and self.tls_version != TlsVersion.TLS13:\n            return\n        self.can_decrypt = False\n        self.client_hello_seen = False\n",
                               "        if not (alert_level == 0x1 and self.tls_version != TlsVersion.TLS13):\n            self.can_decrypt = False\n            self.client_hello_seen = False\n")],
      "handle_alert: early return turned into a guarded block"),
+    ("tlexport/session.py", [("        if self.server_cipher_change and isserver and self.can_decrypt:", "        if isserver and self.server_cipher_change and self.can_decrypt:")], "handle_handshake_finished: operands of `and` reordered"),
+    ("tlexport/session.py", [("                if len(record.binary) > 0:\n                    self.handle_alert(record.binary[0])", "                if len(record.binary) != 0:\n                    self.handle_alert(record.binary[0])")], "handle_tls_record: `len(\u2026) > 0` written `len(\u2026) != 0`"),
+    ("tlexport/session.py", [("            length = int.from_bytes(buffer[1:4], 'big')", "            length = int.from_bytes(buffer[1:4], byteorder='big')")], "handle_decrypted_tls_13_handshake_record: byteorder given by keyword"),
 ]
 
 
@@ -137,8 +162,11 @@ def group_of(what):
              "decode_variable_length_int": ["Varint", "Frames", "QuicDissect2"],
              "get_variable_length_int_length": ["Varint", "Frames", "QuicDissect2"],
              "byte_xor": ["QuicDissect2"], "remove_header_protection": ["QuicDissect2"], "extract_quic_packet": ["QuicDissect2"], "get_full_packet_number": ["Pn"], "set_largest_packet_number": ["Pn"], "check_key_epoch": ["QuicSess"],
-             "packet_isserver": ["QuicSess"], "matches_session_dgram": ["QuicSess"], "handle_alert": ["TlsSess"],
-             "handle_tls_client_hello": ["TlsSess"], "server hello": ["TlsSess"], "set_client_and_server_ports": ["Ports"],
+             "packet_isserver": ["QuicSess"], "matches_session_dgram": ["QuicSess"], "handle_alert": ["TlsSess", "TlsSess2"],
+             "handle_tls_client_hello": ["TlsSess", "TlsSess2"], "server hello": ["TlsSess", "TlsSess2"],
+             **{f: ["TlsSess2"] for f in ("handle_handshake_finished", "handle_tls_handshake_record", "handle_tls_server_hello",
+                                          "handle_decrypted_tls_13_handshake_record", "handle_tls_13_application_record",
+                                          "handle_tls_application_record", "handle_tls_record", "get_tls_records", "TlsRecord")}, "set_client_and_server_ports": ["Ports"],
              "matches_session": ["Demux"], "run": ["Demux"], "OutputBuilder": ["Ports"], "QUICOutputbuilder": ["Ports"],
              "Session.handle_packet": ["Reasm"], "extract_server_buf": ["Reasm"], "extract_client_buf": ["Reasm"],
              "PACKET_TYPE_MAP": ["Pn"], "set_packet_number_spaces": ["Pn"]}
@@ -213,7 +241,10 @@ def edit(root, file, pairs):
     open(path, "w").write(text)
 
 
-def mutation_test():
+def mutation_test(only=None):
+    """`only`: a set of groups — run just the mutations / rewrites that concern one of them (`--groups=A,B`)"""
+    muts = [m for m in MUTATIONS if only is None or set(group_of(m[3])) & only]
+    rews = [r for r in REWRITES if only is None or set(group_of(r[2])) & only]
     # the scratch copy is a worktree of the commit the tree under test (`TLX_REPO`, default /repo) stands at
     base = os.path.realpath(fw.REPO)
     head = subprocess.run(["git", "-C", base, "rev-parse", "HEAD"], check=True, capture_output=True, text=True).stdout.strip()
@@ -225,7 +256,7 @@ def mutation_test():
         st, det, failed = build_props(SCRATCH)
         print(f"  unmodified copy: {st}")
         ok &= st == "proved"
-        for file, old, new, what in MUTATIONS:
+        for file, old, new, what in muts:
             t0 = time.time()
             edit(SCRATCH, file, [(old, new)])
             st, det, failed = build_props(SCRATCH)
@@ -241,7 +272,7 @@ def mutation_test():
             print(f"  MUTATION {'caught' if caught else 'MISSED'} [{st}] groups failing: {sorted(failed)} "
                   f"{'(only its own)' if scoped else 'SCOPE VIOLATED, expected ' + str(sorted(expected))} {what}: "
                   f"{'; '.join(str(d)[:120] for d in det[:3])}  ({time.time() - t0:.1f} s)")
-        for file, pairs, what in REWRITES:
+        for file, pairs, what in rews:
             t0 = time.time()
             edit(SCRATCH, file, pairs)
             st, det, failed = build_props(SCRATCH)
@@ -289,7 +320,8 @@ def main():
           f"required: {len(translate.THEOREMS)}  translated definitions: {len(translate.SPECS)}  ({t1 - t0:.1f} s)")
     for p in ctx.proof_problems[:10]:
         print("  PROOF-PROBLEM", json.dumps(p)[:600])
-    st = translate.selftest(n=int(os.environ.get("TR_SELFTEST_N", "60")), seed=ctx.seed)
+    st = (translate.selftest(n=int(os.environ.get("TR_SELFTEST_N", "60")), seed=ctx.seed) if "--no-cpython" not in sys.argv
+          else {"cases": 0, "functions": 0, "mismatches": [], "refused": 0})
     print(f"translator vs CPython: {st['cases']} cases over {st['functions']} functions, {len(st['mismatches'])} mismatches; "
           f"{st['refused']} sources outside the subset refused ({time.time() - t1:.1f} s)")
     for m in st["mismatches"][:5]:
@@ -298,7 +330,8 @@ def main():
     if "--no-mutations" not in sys.argv:
         t2 = time.time()
         print("mutation test (scratch worktree of /repo):")
-        mok, rows = mutation_test()
+        only = next((set(a.split("=", 1)[1].split(",")) for a in sys.argv[1:] if a.startswith("--groups=")), None)
+        mok, rows = mutation_test(only)
         n_mut = sum(1 for r in rows if r["kind"] == "mutation")
         n_caught = sum(1 for r in rows if r["kind"] == "mutation" and r["outcome"] != "proved")
         n_scoped = sum(1 for r in rows if r["kind"] == "mutation" and r.get("scoped"))
